@@ -459,6 +459,76 @@ func runC06(env *Env) {
 		}
 		in.Close()
 	}
+	// two gateways share an alternative: G1 {C0, C1}, G2 {C2, C1} (the catch event C1 has a token of either gateway
+	// waiting). Event 0 decides G1 and withdraws G1's token at C1 -- G2's token there goes on waiting; event 1 then
+	// decides G2 for C1.
+	for rnd := 0; rnd < 3 && !rep.Saturated(); rnd++ {
+		cs := fmt.Sprintf("two event-based gateways share one alternative: G1 {sig0, sig1}, G2 {sig2, sig1}; sig0 then sig1 (round %d)", rnd)
+		env.Current(cs)
+		p := &Prog{}
+		p.Node("start", "start")
+		p.Node("par", "F")
+		p.Node("ebg", "G1")
+		p.Node("ebg", "G2")
+		for i := 0; i < 3; i++ {
+			c := p.Node("catch", fmt.Sprintf("C%d", i))
+			c.Inner = fmt.Sprintf(`<bpmn:signalEventDefinition id="sd%d" signalRef="sig%d"/>`, i, i)
+			p.Node("task", fmt.Sprintf("B%d", i))
+			p.Node("end", fmt.Sprintf("end%d", i))
+			p.Flow(fmt.Sprintf("C%d", i), fmt.Sprintf("B%d", i), "")
+			p.Flow(fmt.Sprintf("B%d", i), fmt.Sprintf("end%d", i), "")
+		}
+		p.Flow("start", "F", "")
+		p.Flow("F", "G1", "")
+		p.Flow("F", "G2", "")
+		p.Flow("G1", "C0", "")
+		p.Flow("G1", "C1", "")
+		p.Flow("G2", "C2", "")
+		p.Flow("G2", "C1", "")
+		defs, err := ParseDefs(p.XML(`<bpmn:signal id="sig0" name="sig0"/><bpmn:signal id="sig1" name="sig1"/><bpmn:signal id="sig2" name="sig2"/>`))
+		must(err)
+		in, err := StartInst(defs, InstOpt{})
+		must(err)
+		rep.Evaluations++
+		rep.Nontrivial++
+		rep.Count("shared_alternative")
+		problem := ""
+		if !in.WaitUntil(tmoStep, func(l []Ev) bool {
+			return countEv(l, "visit", "C0") >= 1 && countEv(l, "visit", "C1") >= 2 && countEv(l, "visit", "C2") >= 1
+		}) {
+			problem = "the alternatives' tokens did not arrive at their catch events"
+		}
+		if problem == "" {
+			time.Sleep(6 * time.Millisecond)
+			in.Signal("sig0")
+			if !in.Answer("B0", tmoStep) {
+				problem = "sig0 delivered: G1's alternative C0 did not continue"
+			}
+		}
+		if problem == "" {
+			time.Sleep(3 * settle)
+			l := in.Log()
+			if d := countEv(l, "determination", "G2"); d != 0 {
+				problem = fmt.Sprintf("G2 was decided (%d determinations) although none of its events has been delivered", d)
+			} else if countEv(l, "task", "B1")+countEv(l, "task", "B2") != 0 {
+				problem = "an alternative of G2 continued although none of its events has been delivered"
+			}
+		}
+		if problem == "" {
+			in.Signal("sig1")
+			if !in.Answer("B1", tmoStep) {
+				problem = "sig1 delivered: G2's alternative C1 did not continue"
+			} else if !in.WaitCease(tmoStep) {
+				problem = "both winners answered, the instance did not complete"
+			} else if l := in.Log(); countEv(l, "task", "B0") != 1 || countEv(l, "task", "B1") != 1 || countEv(l, "task", "B2") != 0 {
+				problem = fmt.Sprintf("requests B0 %d, B1 %d, B2 %d (expected 1, 1, 0)", countEv(l, "task", "B0"), countEv(l, "task", "B1"), countEv(l, "task", "B2"))
+			}
+		}
+		if problem != "" {
+			rep.Violate("C06-one-winner", cs, problem+"; log: "+logString(in.Log()))
+		}
+		in.Close()
+	}
 	// simultaneous delivery: every alternative's token runs the gateway's action transformer at the same
 	// moment (hook VerifEventGatewayRace, build tag verif): exactly one may continue, round after round
 	for _, n := range []int{2, 3} {
